@@ -335,6 +335,17 @@ func sizeClass(n int) string {
 	}
 }
 
+// drawSize: the old fixed sizes, the neighbourhood of every power of two from 1 KiB to 1 MiB (buffer pools, read
+// chunks and copy loops change behaviour there), or any size up to 200 kB.
+func drawSize(t *rapid.T) int {
+	switch rapid.IntRange(0, 2).Draw(t, "size-kind") {
+	case 0:
+		return rapid.SampledFrom([]int{1, 2, 100, 100, 4096, 70000, 70000, 1 << 20}).Draw(t, "size")
+	case 1:
+		return 1<<rapid.IntRange(10, 20).Draw(t, "pow") + rapid.SampledFrom([]int{-512, -1, 0, 1}).Draw(t, "around")
+	}
+	return rapid.IntRange(1, 200000).Draw(t, "any-size")
+}
 func drawSeq(t *rapid.T) Seq {
 	s := Seq{Backend: rapid.SampledFrom([]string{"memory", "file", "file"}).Draw(t, "backend"), Shards: rapid.SampledFrom([]int{1, 2, 16}).Draw(t, "shards")}
 	n := rapid.IntRange(3, 30).Draw(t, "n")
@@ -342,7 +353,7 @@ func drawSeq(t *rapid.T) Seq {
 		var op Op
 		switch rapid.IntRange(0, 15).Draw(t, "op") {
 		case 0, 1, 2, 3:
-			op = Op{Kind: "store", Key: rapid.IntRange(0, universe-1).Draw(t, "key"), Size: rapid.SampledFrom([]int{1, 2, 100, 100, 4096, 70000, 70000, 1 << 20}).Draw(t, "size")}
+			op = Op{Kind: "store", Key: rapid.IntRange(0, universe-1).Draw(t, "key"), Size: drawSize(t)}
 			if op.Size == 1<<20 && rapid.IntRange(0, 2).Draw(t, "big") != 0 {
 				op.Size = 50
 			}
